@@ -355,14 +355,27 @@ m("walk-depth-limit", ["C17"], "break", "ast/walk.go",
   "		last := stack[len(stack)-1]\n		stack = stack[:len(stack)-1]\n",
   "		last := stack[len(stack)-1]\n		stack = stack[:len(stack)-1]\n		if len(stack) > 100000 {\n			continue\n		}\n", "a size limit drops subtrees")
 
+m("dash-comment-single", ["C14"], "break", "lexer.go",
+  "r == '/' && l.peekIs(1, '/') || r == '-' && l.peekIs(1, '-'):", "r == '/' && l.peekIs(1, '/') || r == '-':", "a single '-' opens a line comment")
+m("block-comment-unclosed-ok", ["C14"], "break", "lexer.go",
+  "		return l.skipCommentUntil(2, \"*/\", true, noPanic)", "		return l.skipCommentUntil(2, \"*/\", false, noPanic)", "an unclosed /* runs to the end of input without an error")
+m("dotident-from-new-token", ["C14"], "break", "lexer.go",
+  "		nextDotIdent := isNextDotIdent(l.lastTokenKind)", "		nextDotIdent := isNextDotIdent(l.Token.Kind)", "the dot-identifier mode asks the token that was just reset")
+
 def sh(cmd, cwd=None):
     return subprocess.run(cmd, shell=True, cwd=cwd, capture_output=True, text=True)
 
 def main():
     verify = "--verify" in sys.argv
     out = "/verif/mutants"
+    global OLD, SAVED
+    OLD = {}
+    if os.path.exists(out + "/INDEX.json"):
+        OLD = {e["id"]: e for e in json.load(open(out + "/INDEX.json"))}
+    SAVED = tempfile.mkdtemp(prefix="mutold.", dir="/tmp")
     for d in os.listdir(out) if os.path.isdir(out) else []:
         if os.path.isdir(os.path.join(out, d)):
+            shutil.copytree(os.path.join(out, d), os.path.join(SAVED, d))
             shutil.rmtree(os.path.join(out, d))
     env = "GOFLAGS=-mod=mod GOPROXY=off GOSUMDB=off"
     summary = []
@@ -387,7 +400,15 @@ def main():
                 open(os.path.join(t, "a", f), "w").write(a); open(os.path.join(t, "b", f), "w").write(b)
                 patch += sh("diff -u a/%s b/%s" % (f, f), cwd=t).stdout
             status = ""
-            if verify:
+            prev = OLD.get(mu["id"])
+            oldpatch = os.path.join(SAVED, mu["props"][0], "%s-%s.patch" % (mu["kind"], mu["id"]))
+            same = False
+            if prev and prev.get("suite") and os.path.exists(oldpatch):
+                strip = lambda t: "\n".join(l for l in t.split("\n") if not l.startswith(("--- ", "+++ ")))
+                same = strip(open(oldpatch).read()) == strip(patch)
+            if verify and same:
+                status = prev["suite"]  # the same change as last time: its suite verdict stands
+            elif verify:
                 sh("rsync -a --exclude .git /repo/ %s/repo/" % t)
                 for f, a, b in files:
                     open(os.path.join(t, "repo", f), "w").write(b)
@@ -404,6 +425,7 @@ def main():
         finally:
             shutil.rmtree(t)
     json.dump([dict(id=a, kind=b, props=c, suite=d) for a, b, c, d in summary], open(os.path.join(out, "INDEX.json"), "w"), indent=1)
+    shutil.rmtree(SAVED, ignore_errors=True)
 
 if __name__ == "__main__":
     main()
